@@ -107,3 +107,10 @@ META['C16'] = dict(
     note='Trusted: link-time interposition sees all protection requests of the statically linked library; /proc/self/maps as cross-check at command granularity only.',
     technique='stateful property testing (rapidcheck command sequences) with an invariant over the interposed page-protection history',
 )
+
+META['C13'] = dict(
+    text='Generated entry MXCSR words (any of the 2^16 control/status combinations) x VM configuration x inputs, for the single call (digest independence + bit-exact restore, two hashes back to back) and for the '
+         'pipelined API (independent entry state before each call). 640 cases quick / 40k thorough; the non-trivial rule requires the hash to end in a non-default rounding mode so that a missing reset cannot hide behind the restore.',
+    note='Trusted: stmxcsr/ldmxcsr around the call; x87 control word is not part of the property on x86-64 (SSE arithmetic only).',
+    technique='property-based testing (rapidcheck): metamorphic relation (digest invariant under entry FP state) + state-restoration invariant',
+)
